@@ -2,6 +2,7 @@ package vc
 
 import (
 	"fmt"
+	"strconv"
 	"strings"
 )
 
@@ -534,6 +535,7 @@ type Contract struct {
 	Lemmas     []string // auto lemmas assumed (as quantified facts) while verifying this function
 	Allocates  []string
 	NilRecv    bool // the method tolerates a nil receiver: not assumed non-nil, not checked at call sites
+	MaxDegree  int  // `maxdegree N`: no float product of more than N input-derived factors (see VC.degOf)
 	NoMerge    bool // explore the branches of if/switch separately up to the end of the enclosing block
 	StoreLinks bool // also introduce post-store reads from pre-store reads (quantifier instantiation aid)
 	Where      string
@@ -590,7 +592,7 @@ var clauseKW = map[string]bool{
 	"func": true, "ghost": true, "lemma": true, "axiom": true, "requires": true, "ensures": true,
 	"modifies": true, "invariant": true, "decreases": true, "loop": true, "floats": true,
 	"inline": true, "trusted": true, "panics": true, "at": true, "use": true, "obligations": true,
-	"induction": true, "nosafety": true, "withinlen": true, "allocates": true, "trigger": true, "lemmas": true, "unreachable": true, "pure": true, "package": true, "opaque": true, "storelinks": true, "nilrecv": true, "nomerge": true, "apply": true,
+	"induction": true, "nosafety": true, "withinlen": true, "allocates": true, "trigger": true, "lemmas": true, "unreachable": true, "pure": true, "package": true, "opaque": true, "storelinks": true, "nilrecv": true, "nomerge": true, "maxdegree": true, "apply": true,
 }
 
 // ParseSpecText parses contract text (already stripped of //@ prefixes); pkg is the
@@ -852,6 +854,14 @@ func (ss *SpecSet) ParseSpecText(lines []string, wheres []string, pkg string) er
 		case "nomerge":
 			if cur != nil {
 				cur.NoMerge = true
+			}
+		case "maxdegree":
+			if cur != nil {
+				n, err := strconv.Atoi(strings.TrimSpace(rc.text))
+				if err != nil || n < 1 {
+					return fmt.Errorf("%s: maxdegree needs a positive integer", rc.where)
+				}
+				cur.MaxDegree = n
 			}
 		case "nosafety":
 			if cur != nil {
